@@ -2,7 +2,7 @@
    directives (bool, option, unit, list, prod, sumbool, sumor -> OCaml types of the same
    shape) are the only ones in force; there is no Extract Constant; Z, N, positive, nat,
    ascii and string stay the extracted inductives. *)
-Require Import Lib.Base Model.Dispatch.
+Require Import Lib.Base Model.Dispatch Model.DispatchAll.
 From Coq Require Import ExtrOcamlBasic.
 Extraction Language OCaml.
-Extraction "model.ml" dispatch.
+Extraction "model.ml" dispatch_all.
